@@ -33,6 +33,7 @@ from .code_hash import (
     fn_code_hash,
     resolve_to_symbolic_names,
     HashRule,
+    HashRuleSet,
     MementoFunctionHashRule,
     list_dotted_names,
 )
@@ -143,6 +144,9 @@ class MementoFunction(MementoFunctionBase):
     "The explicit version salt provided by the user"
 
     _hash_rules = None  # type: List[HashRule]
+
+    _watched_symbols = None  # type: List[tuple]
+    "Symbols that resolved to objects no hash rule is kept for, with the object they resolved to"
 
     def hash_rules(self) -> List[HashRule]:
         """Ordered list of hash rules from which the hash was computed"""
@@ -266,6 +270,7 @@ class MementoFunction(MementoFunctionBase):
         ), "Cannot create a MementoFunction that wraps another MementoFunction"
 
         self._hash_rules = []  # type: List[HashRule]
+        self._watched_symbols = []
         self.fn = fn
         self.src_fn = src_fn if src_fn is not None else fn
         self.function_type = "memento_function"
@@ -371,6 +376,7 @@ class MementoFunction(MementoFunctionBase):
         )
         # The clone watches the same dependencies for changes as the original
         clone._hash_rules = list(self._hash_rules)
+        clone._watched_symbols = list(self._watched_symbols)
         return clone
 
     def call(self, *args, **kwargs):
@@ -458,7 +464,10 @@ class MementoFunction(MementoFunctionBase):
                 and self._hash_rules
             ):
                 changed_rules = [rule for rule in self._hash_rules if rule.did_change()]
-                if len(changed_rules) > 0:
+                rebound_symbols = any(
+                    resolver() != obj for resolver, obj in self._watched_symbols
+                )
+                if len(changed_rules) > 0 or rebound_symbols:
                     # Global variables or local functions may have changed since the last time
                     # this function was run - check that they haven't before assuming we
                     # can use the cached version.
@@ -507,7 +516,7 @@ class MementoFunction(MementoFunctionBase):
 
         # Code hash is already computed during construction, so it does not need to be recomputed
 
-        hash_rules = set()  # type: Set[HashRule]
+        hash_rules = HashRuleSet()  # type: Set[HashRule]
         # Collect dependencies
         self_rule = MementoFunctionHashRule(
             parent_symbol=None,
@@ -526,6 +535,7 @@ class MementoFunction(MementoFunctionBase):
         # Order hash rules
         ordered_hash_rules = sorted(hash_rules)
         self._hash_rules = ordered_hash_rules
+        self._watched_symbols = list(hash_rules.watched_symbols)
 
         # Compute hash by evaluating each hash rule
         sha256 = hashlib.sha256()
